@@ -169,6 +169,11 @@ func H_C11_codec() {
 	emptyAt := vChoose("emptyAt", n+1) // n = none
 	var kids []*vNodeT
 	msg := &SignMessage{Headers: Headers{Protected: ProtectedHeader{}, Unprotected: UnprotectedHeader{}}, Payload: vBlob("payload")}
+	// the slot without a signature: empty byte string, or no COSE_Signature at all (nil in memory, null / undefined on the wire)
+	emptyKind := 0
+	if emptyAt < n {
+		emptyKind = vChoose("emptyKind", 3)
+	}
 	for i := 0; i < n; i++ {
 		nm := "s" + string(rune('0'+i))
 		lo := 1
@@ -180,6 +185,11 @@ func H_C11_codec() {
 			hi = 0
 		}
 		sb := vBlobN(nm+".sig", lo, hi)
+		if i == emptyAt && emptyKind > 0 {
+			msg.Signatures = append(msg.Signatures, nil)
+			kids = append(kids, nnSimple(uint64(21+emptyKind), 0))
+			continue
+		}
 		msg.Signatures = append(msg.Signatures, &Signature{Headers: Headers{Protected: ProtectedHeader{}, Unprotected: UnprotectedHeader{}}, Signature: sb})
 		kids = append(kids, nnArray([]*vNodeT{nnBstr([]byte{}, 0), nnMap(nil, 0), nnBstr(sb, vWidth(nm+".w", uint64(len(sb))))}, 0))
 	}
